@@ -455,7 +455,21 @@ func cvLog(r *rng, s *sink, maxLaps, maxRows int, withOBD bool, baseSec int64) (
 		obdVals[i] = taFloat(r)
 	}
 	fresh, needed := 0, 0
+	// lap numbers: TrackAddict counts from 0, other writers of the format count from 1, and a lap
+	// deleted in the app leaves a gap; the decoder accepts any numbers that do not go down
+	lapNo := 0
+	if r.chance(1, 6) {
+		lapNo = 1 + r.intn(2)
+		s.count("cv.laps_from_" + fmt.Sprint(lapNo))
+	}
 	for li := 0; li < nl; li++ {
+		if li > 0 {
+			lapNo++
+			if r.chance(1, 14) {
+				lapNo += 1 + r.intn(2)
+				s.count("cv.lap_number_gap")
+			}
+		}
 		rows := r.intn(maxRows + 1)
 		now := int64(0)
 		for j := 0; j < rows; j++ {
@@ -482,7 +496,7 @@ func cvLog(r *rng, s *sink, maxLaps, maxRows int, withOBD bool, baseSec int64) (
 			if !noTime {
 				vals = append(vals, fmt.Sprintf("%d.%03d", sec, ms))
 			}
-			vals = append(vals, fmt.Sprint(li), b01(gu), p.lat, p.lon, taFloat(r), taFloat(r), taFloat(r), taFloat(r))
+			vals = append(vals, fmt.Sprint(lapNo), b01(gu), p.lat, p.lon, taFloat(r), taFloat(r), taFloat(r), taFloat(r))
 			if accel {
 				if r.chance(1, 5) {
 					// a legitimate sample that reads exactly zero on every axis
@@ -514,7 +528,7 @@ func cvLog(r *rng, s *sink, maxLaps, maxRows int, withOBD bool, baseSec int64) (
 			b.WriteString(strings.Join(vals, ",") + "\n")
 		}
 		if li < nl-1 || r.chance(1, 2) {
-			fmt.Fprintf(&b, "# Lap %d: %02d:%02d:%02d.%03d\n", li, 0, r.intn(60), r.intn(60), r.intn(1000))
+			fmt.Fprintf(&b, "# Lap %d: %02d:%02d:%02d.%03d\n", lapNo, 0, r.intn(60), r.intn(60), r.intn(1000))
 		}
 	}
 	// oracle: real WGS-84 inverse for every ordered pair of positions used
@@ -665,6 +679,9 @@ func corpusCV(cfg *config) []string {
 		mk("conv", "-", "def", "Time,UTC Time,GPS_Update,OBD_Update,Engine Speed (RPM) *OBD\n0.000,100.000,1,0,1000\n# Lap 0: 00:00:01.000\n1.000,101.000,1,0,1000\n# Lap 1: 00:00:01.000\n2.000,102.000,1,0,1000\n"),
 		// interpolation between two fresh readings
 		mk("conv", "-", "def", "Time,UTC Time,GPS_Update,OBD_Update,Engine Speed (RPM) *OBD\n0.000,100.000,1,1,1000\n# Lap 0: 00:00:01.000\n1.000,101.000,1,0,1000\n1.500,101.500,1,0,1000\n# Lap 1: 00:00:01.000\n2.000,102.000,1,1,5000\n"),
+		// laps counted from 1, and laps with a number missing (a lap deleted in the app)
+		mk("conv", "-", "def", "Time,UTC Time,GPS_Update\n0.000,100.000,1\n# Lap 1: 00:00:01.000\n1.000,101.000,1\n# Lap 2: 00:00:01.000\n2.000,102.000,1\n# Lap 3: 00:00:01.000\n3.000,103.000,1\n"),
+		mk("conv", "-", "def", "Time,UTC Time,GPS_Update\n0.000,100.000,1\n# Lap 0: 00:00:01.000\n1.000,101.000,1\n# Lap 1: 00:00:01.000\n2.000,102.000,1\n# Lap 3: 00:00:01.000\n3.000,103.000,1\n# Lap 4: 00:00:01.000\n4.000,104.000,1\n"),
 		// start date equal to the logged day, session running past UTC midnight
 		mk("shift", "1653955200", "nil", "Time,UTC Time,GPS_Update\n0.000,1654041590.000,1\n# Lap 0: 00:00:01.000\n1.000,1654041598.000,1\n# Lap 1: 00:00:05.000\n6.000,1654041603.000,1\n# Lap 2: 00:00:05.000\n11.000,1654041608.000,1\n"),
 	}
